@@ -42,9 +42,13 @@ def run(ctx):
     rm = ctx.tlc(sdir, "Phantom.tla", "MC_Phantom_minimal.cfg", timeout=600, count=False)
     if rm["inv"] != "WellFormed":
         raise vlib.InfraError("minimal-bytes instance should violate WellFormed, got %s" % rm["inv"])
+    rw = ctx.tlc(sdir, "Phantom.tla", "MC_Phantom_aswritten.cfg", timeout=600, count=False)
+    if rw["inv"] != "Contained":
+        raise vlib.InfraError("the instance that takes a non-canonical CIDR's address as the base should violate Contained, got %s" % rw["inv"])
     ctx.stage("A", invariants=["TypeOK", "Contained", "WellFormed", "RandPortFromSubnet", "Pure", "UnknownGenerationFails",
                                "NoSpuriousError", "ZeroWeightNeverChosen"],
-              nonvacuity="RNG=global violates Pure; AddrBytes=minimal violates WellFormed (both as expected)")
+              nonvacuity="RNG=global violates Pure; AddrBytes=minimal violates WellFormed; NetBase=as-written (host bits of a non-canonical "
+                         "CIDR kept in the base) violates Contained (all as expected)")
 
     # ---- B
     g = ctx.tlc(sdir, "Gen_Phantom.tla", "Gen_Phantom.cfg", timeout=900, workers=8, count=False)
